@@ -22,7 +22,11 @@ TRUSTED = ['statsmodels GLM freq_weights solve the weighted score equations (= s
 IMPORTS = ec.IMPORTS + ['Zepid.Proofs.EstimatorsProofs', 'Zepid.Proofs.ReplicateProofs']
 
 
-def replicate(df, wcol='w'):
+WL = ['w']      # label of the weights column in the current comparison (a column label need not be a non-empty string)
+
+
+def replicate(df, wcol=None):
+    wcol = WL[0] if wcol is None else wcol
     rep = df.loc[df.index.repeat(df[wcol].astype(int))].drop(columns=[wcol]).reset_index(drop=True)
     return rep
 
@@ -53,7 +57,7 @@ def both(fn, df, rep, key, what, fails, ctx, payload):
     """fn(frame, weights_or_None) -> vector of point estimates"""
     FITS[0] += 1
     try:
-        w = fn(df, 'w')
+        w = fn(df, WL[0])
     except Exception as e:   # noqa
         fails.append((len(df), key + '.raises', '%s with a weights column raised %s: %s' % (what, type(e).__name__, str(e)[:120]), payload))
         return None
@@ -78,6 +82,10 @@ def estimator_part(ctx, fails):
         df, meta = datagen.mixed_frame(ctx.rng, n=ctx.rng.randint(50, 90), outcome=otype)
         rs = np.random.RandomState(ctx.rng.randrange(2 ** 31))
         df['w'] = rs.randint(1, 6, size=len(df))
+        WL[0] = ['w', 0, 'w', ''][i % 4]            # an integer-0 label is what pd.concat([df, pd.Series(w)], axis=1) produces
+        if WL[0] != 'w':
+            df = df.rename(columns={'w': WL[0]})
+        ctx.count('weights column label:%r' % (WL[0],))
         df, dr = datagen.dress(df, ctx.rng, i)       # row labels / exposure storage type of the weighted frame only
         ctx.count('row labels:' + dr['index'])
         ctx.count('exposure dtype:' + dr['adtype'])
@@ -86,7 +94,7 @@ def estimator_part(ctx, fails):
         payload = {'part': 'estimators', 'frame': datagen.pack_frame(df), 'meta': meta}
         ctx.evaluations += 1
         ctx.count('outcome:' + otype)
-        ctx.nontriv([otype, df['Y'].tolist()[:8], df['w'].tolist()[:8]])
+        ctx.nontriv([otype, df['Y'].tolist()[:8], df[WL[0]].tolist()[:8]])
         dist = {'binary': None, 'normal': 'gaussian', 'poisson': 'poisson'}[otype]
         for stab in (True, False):
             for std in ('population', 'exposed', 'unexposed'):
@@ -154,6 +162,7 @@ def estimator_part(ctx, fails):
 
 
 def transport_part(ctx, fails):
+    WL[0] = 'w'
     from zepid.causal.generalize import GTransportFormula
     n = 2 if ctx.quick else 20
     for i in range(n):
@@ -176,6 +185,7 @@ def transport_part(ctx, fails):
 
 
 def survival_part(ctx, fails):
+    WL[0] = 'w'
     from zepid.causal.gformula import SurvivalGFormula
     n = 2 if ctx.quick else 20
     for i in range(n):
